@@ -78,6 +78,10 @@ def tree_fail_messages(node, acc, under_filter=False):
             msg, status = cv, "FAIL"
         if status == "FAIL":
             acc.append(msg)
+    if k == "BlockGuardCheck" and isinstance(v, dict) and v.get("status") == "FAIL":
+        # a `!empty` annotated block over an empty selection FAILs without any value record; the report shows it as a Block leaf
+        if not [c for c in node.get("children", []) if obs.container_kind(c)[0] != "Filter"]:
+            acc.append(None)
     for c in node.get("children", []):
         tree_fail_messages(c, acc)
 
